@@ -79,7 +79,7 @@ def montDecode (a : Nat) : Nat := redc (a * 1)
 structure Fp2 where
   im : Nat
   re : Nat
-  deriving DecidableEq, Repr, BEq, Inhabited
+  deriving DecidableEq, Repr, Inhabited
 
 namespace Fp2
 def zero : Fp2 := ⟨0, 0⟩
@@ -104,7 +104,7 @@ end Fp2
 inductive G1 where
   | inf
   | aff (x y : Nat)
-  deriving DecidableEq, Repr, BEq, Inhabited
+  deriving DecidableEq, Repr, Inhabited
 
 def curveB : Nat := 3
 def g1gen : G1 := .aff 1 2
@@ -158,7 +158,7 @@ end G1
 inductive G2 where
   | inf
   | aff (x y : Fp2)
-  deriving DecidableEq, Repr, BEq, Inhabited
+  deriving DecidableEq, Repr, Inhabited
 
 /-- `twistB = 3/ξ`, ξ = i + 9 (constants.go keeps it in Montgomery form) -/
 def twistB : Fp2 :=
